@@ -459,7 +459,12 @@ def conclude(check, tier, seed, results, timer, extra_coverage=None):
         "unreproduced_candidates": len(unreproduced),
         "components": {
             "real": ["pyimpspec (entry points, worker functions, Progress, circuits, data sets)", "numpy", "scipy", "lmfit", "statsmodels", "pandas"],
-            "stub": ["multiprocessing.Pool (process creation, pipes, handler threads) -> simkit.simpool.SimPool", "wall clock seen by IMapIterator.next(timeout) -> virtual clock", "matplotlib.get_backend", "lmfit.minimize only when F4 fires"],
+            "stub": ["multiprocessing.Pool (process creation, pipes, handler threads, initializers, per-worker module state) -> simkit.simpool.SimPool",
+                     "wall clock: IMapIterator.next(timeout) and time.time/monotonic/perf_counter -> virtual clock",
+                     "matplotlib.get_backend", "lmfit.minimize raises only when F4 fires",
+                     "lmfit residual wrapper receives a private copy of the parameter vector (observation O1: use-after-free in lmfit on aborted leastsq fits)",
+                     "Progress.increment wrapped by a step counter (behaviour unchanged)",
+                     "multiprocessing.process._parent_process when the in_child deployment is drawn"],
         },
         "harness_workers": batch.default_workers(),
         "slowest_jobs": sorted(((round(r["wall"], 1), r["entry"], (r.get("meta") or {}).get("kind") or (r.get("meta") or {}).get("group")) for r in results), reverse=True)[:5],
